@@ -23,6 +23,10 @@
 (*   g@p  the same for the outermost pair of grouping parentheses at p     *)
 (*   o@p  newline (+ trivia) after the binary operator at p, where the     *)
 (*        parser skips newlines (brackets, if/elif condition, case head)   *)
+(*   f@p  line breaks (+ trivia) inside a function literal's signature     *)
+(*        where newlines are skipped: 1 after fn/pu, 2 after each          *)
+(*        parameter's comma, 4 before `do`                                 *)
+(*   h@p  trivia at the end of the signature line (after `->` or `do`)     *)
 (*   d@p  the same for a blob / enum declaration and a `from m use (..)`   *)
 (*        import list at top-level position p                              *)
 (*   indent  0..8 spaces per level, 9 = one tab per level                  *)
@@ -47,10 +51,13 @@
 (*    `g(f(a, b), c)`), so is a comma;                                     *)
 (*  - `->` binds tighter than every operator, so its left side must be a   *)
 (*    primary/postfix expression (others get the parentheses they NEED);   *)
-(*  - an arrow call needs a first argument; sugar is offered for callees   *)
-(*    that are names or field accesses; `->` only where the callee         *)
-(*    contains no function literal (name resolution numbers the first      *)
-(*    argument before the callee, which would renumber binders);           *)
+(*  - an arrow call needs a first argument; every callee may be used with  *)
+(*    `->` and `'` (`x -> (pick(true))(4)`, `x -> ops[1](1)`), but a prime *)
+(*    after a callee that is not a bare name chain - `(e)' a` - is only    *)
+(*    read at the lowest precedence level (as a whole argument, element,   *)
+(*    statement, value; not as an operand or base); `->` is left out where *)
+(*    callee AND first argument contain a function literal (name           *)
+(*    resolution numbers the first argument before the callee);            *)
 (*  - parentheses make everything inside them "last in its parenthesis";    *)
 (*  - the target of an assignment is an lvalue path that must start with   *)
 (*    an identifier (`(self).n += 1` is a syntax error): it has no sites.  *)
@@ -103,10 +110,12 @@ HasFn(e) ==
       [] e.k = "variant" -> e.has /\ HasFn(e.e)
       [] OTHER -> FALSE
 
-SugarCallee(f) == f.k \in {"var", "std", "fld"}
-ArrowCallee(f) == SugarCallee(f) /\ ~HasFn(f)
+\* Every call may be written with a prime or an arrow, whatever its callee is (`x -> (pick(true))(4)`,
+\* `(fn a -> a end)' 1`).  One form is left out: `->` where BOTH the callee and the first argument contain a function
+\* literal or a block - name resolution resolves the first argument before the callee, which renumbers their binders.
+ArrowArgs(e) == ~(HasFn(e.f) /\ HasFn(e.args[1]))
 \* number of options of the call site (ignoring context)
-CallOpts(e) == IF ~SugarCallee(e.f) THEN 1 ELSE IF Len(e.args) = 0 \/ ~ArrowCallee(e.f) THEN 2 ELSE 4
+CallOpts(e) == IF Len(e.args) = 0 \/ ~ArrowArgs(e) THEN 2 ELSE 4
 
 (* ---------------------------------------------------------------- parentheses the grammar NEEDS (the printer's rules) *)
 Compound(e) == e.k \in {"if", "case", "fn", "variant"}
@@ -120,7 +129,7 @@ NeedBase(e) == e.k \notin {"var", "std", "self", "call", "fld", "idx", "tuple"} 
 NeedField(e) == Compound(e) /\ e.k # "fn"           \* a blob field's function literal stays bare (binds self)
 NeedArrowLhs(e) == \/ e.k \in {"bin", "un"} \/ Compound(e)
                    \/ (e.k = "int" /\ e.v < 0) \/ (e.k = "float" /\ e.n < 0)
-Wrappable(e) == e.k \notin {"std", "fn"}
+Wrappable(e) == TRUE     \* every expression may be parenthesised (function literals and std names included)
 
 B(b) == IF b THEN 1 ELSE 0
 Str(i) == ToString(i)
@@ -148,9 +157,12 @@ NormL(v, bits, always) ==
 
 (* ---------------------------------------------------------------- Resolve: preference -> legal choice *)
 (* inb: the expression stands where the parser skips newlines (inside parentheses, brackets, braces, a paren call's
-   argument list, an if/elif condition, a case scrutinee); statements switch it off again. *)
-RECURSIVE RE(_, _, _, _, _, _, _)
-RECURSIVE RK(_, _, _, _, _)
+   argument list, an if/elif condition, a case scrutinee); statements switch it off again.
+   top: the expression is parsed by `expression` itself (lowest precedence level) or is the LEFTMOST part of such an
+   expression (left operand, base of a postfix form, callee): only there does the parser accept a prime after something
+   that is not a name chain, i.e. `(e)' a, b` (the token `'` has precedence No). *)
+RECURSIVE RE(_, _, _, _, _, _, _, _)
+RECURSIVE RK(_, _, _, _, _, _)
 RECURSIVE RS(_, _, _)
 RECURSIVE RArgs(_, _, _, _, _, _)
 RECURSIVE RBody(_, _, _, _)
@@ -164,52 +176,63 @@ RBody(body, j, pre, pf) ==
 \* expressions es[i..n] at paths p.g<i>; every one but the last is followed by a comma, the last by lastFol
 RArgs(es, i, p, lastFol, inb, pf) ==
     IF i > Len(es) THEN E0
-    ELSE RE(es[i], p \o ".g" \o Str(i), IF i < Len(es) THEN "," ELSE lastFol, NeedArg(es[i]), FALSE, inb, pf)
+    ELSE RE(es[i], p \o ".g" \o Str(i), IF i < Len(es) THEN "," ELSE lastFol, NeedArg(es[i]), FALSE, inb, TRUE, pf)
          @@ RArgs(es, i + 1, p, lastFol, inb, pf)
 
 RFields(fs, i, p, pf) ==
     IF i > Len(fs) THEN E0
-    ELSE RE(fs[i].e, p \o ".g" \o Str(i), ",", NeedField(fs[i].e), FALSE, TRUE, pf) @@ RFields(fs, i + 1, p, pf)
+    ELSE RE(fs[i].e, p \o ".g" \o Str(i), ",", NeedField(fs[i].e), FALSE, TRUE, TRUE, pf) @@ RFields(fs, i + 1, p, pf)
 
 \* if arms (condition + body) and case arms (body only)
 RArms(arms, i, p, pf) ==
     IF i > Len(arms) THEN E0
-    ELSE (IF "c" \in DOMAIN arms[i] THEN RE(arms[i].c, p \o ".a" \o Str(i) \o ".c", "do", FALSE, FALSE, TRUE, pf) ELSE E0)
+    ELSE (IF "c" \in DOMAIN arms[i] THEN RE(arms[i].c, p \o ".a" \o Str(i) \o ".c", "do", FALSE, FALSE, TRUE, TRUE, pf) ELSE E0)
          @@ RBody(arms[i].body, 1, p \o ".a" \o Str(i) \o ".s", pf)
          @@ RArms(arms, i + 1, p, pf)
 
+ParenPref(e, p, np, pf) == IF np THEN 0 ELSE Min2(Get(pf, "p@" \o p), 2)
+HasDo(e) == e.ret.k = "tvoid" \/ e.ret.k # "tnone"          \* `fn .. do` / `fn .. -> T do`;  otherwise the signature ends in `->`
+SigBits(e) == {1} \cup (IF Len(e.params) >= 2 THEN {2} ELSE {}) \cup (IF HasDo(e) THEN {4} ELSE {})
+
 \* e at path p, followed by token fol, with `need` grammar-required parentheses; np: no redundant parentheses here
-RE(e, p, fol, need, np, inb, pf) ==
-    LET pl == IF np \/ ~Wrappable(e) THEN 0 ELSE Min2(Get(pf, "p@" \o p), 2)
+RE(e, p, fol, need, np, inb, top, pf) ==
+    LET pl == ParenPref(e, p, np, pf)
         paren == need \/ pl > 0
         f1 == IF paren THEN ")" ELSE fol
     IN One("p@" \o p, pl)
        @@ (IF paren THEN One("g@" \o p, NormL(Get(pf, "g@" \o p), {1, 4}, FALSE)) ELSE E0)     \* layout of the outermost pair
-       @@ RK(e, p, f1, inb \/ paren, pf)
+       @@ RK(e, p, f1, inb \/ paren, top \/ paren, pf)
 
-RK(e, p, fol, inb, pf) ==
+RK(e, p, fol, inb, top, pf) ==
     CASE e.k \in {"int", "float", "str", "bool", "nil", "var", "std", "self"} -> E0
       [] e.k = "bin" -> (IF inb THEN One("o@" \o p, NormL(Get(pf, "o@" \o p), {2}, FALSE)) ELSE E0)   \* line break after the operator
-                        @@ RE(e.l, p \o ".l", e.op, NeedOperand(e.l, Level(e.op), FALSE), FALSE, inb, pf)
-                        @@ RE(e.r, p \o ".r", fol, NeedOperand(e.r, Level(e.op), TRUE), FALSE, inb, pf)
-      [] e.k = "un" -> RE(e.a, p \o ".a", fol, NeedUnOperand(e.a), FALSE, inb, pf)
+                        @@ RE(e.l, p \o ".l", e.op, NeedOperand(e.l, Level(e.op), FALSE), FALSE, inb, top, pf)   \* the leftmost operand continues the enclosing parse
+                        @@ RE(e.r, p \o ".r", fol, NeedOperand(e.r, Level(e.op), TRUE), FALSE, inb, FALSE, pf)
+      [] e.k = "un" -> RE(e.a, p \o ".a", fol, NeedUnOperand(e.a), FALSE, inb, FALSE, pf)
       [] e.k = "if" -> RArms(e.arms, 1, p, pf)
-      [] e.k = "case" -> RE(e.e, p \o ".e", "do", FALSE, FALSE, TRUE, pf) @@ RArms(e.arms, 1, p, pf)
+      [] e.k = "case" -> RE(e.e, p \o ".e", "do", FALSE, FALSE, TRUE, TRUE, pf) @@ RArms(e.arms, 1, p, pf)
                          @@ RBody(e.els, 1, p \o ".x.s", pf)
       [] e.k = "fn" ->
            LET n == Len(e.body)
                tailSite == e.ret.k # "tvoid" /\ n > 0 /\ e.body[n].k = "expr"
-           IN (IF tailSite THEN One("t@" \o p, Min2(Get(pf, "t@" \o p), 1)) ELSE E0) @@ RBody(e.body, 1, p \o ".s", pf)
+           IN (IF tailSite THEN One("t@" \o p, Min2(Get(pf, "t@" \o p), 1)) ELSE E0)
+              \* f@: line breaks (+ trivia) inside the signature, only where newlines are skipped: 1 after fn/pu, 2 after every
+              \* parameter's comma, 4 before `do`;  h@: trivia at the end of the signature line (after `->` or `do`), anywhere
+              @@ (IF inb THEN One("f@" \o p, NormL(Get(pf, "f@" \o p), SigBits(e), FALSE)) ELSE E0)
+              @@ One("h@" \o p, NormL(Get(pf, "h@" \o p), {1}, TRUE))
+              @@ RBody(e.body, 1, p \o ".s", pf)
       [] e.k = "call" ->
            LET n == Len(e.args)
                want == Get(pf, "c@" \o p)
-               c == IF ~SugarCallee(e.f) THEN 0
-                    ELSE IF want = 1 /\ PrimeOk(n, fol) THEN 1
-                    ELSE IF want = 2 /\ n >= 1 /\ ArrowCallee(e.f) /\ ArrowOk(fol) THEN 2
-                    ELSE IF want = 3 /\ n >= 1 /\ ArrowCallee(e.f) /\ ArrowOk(fol) /\ PrimeOk(n - 1, fol) THEN 3
+               \* a callee that is not a bare name chain (it needs parentheses or is given some) takes a prime only at the top level
+               parenCallee == NeedBase(e.f) \/ ParenPref(e.f, p \o ".f", FALSE, pf) > 0
+               primeCallee == ~parenCallee \/ top
+               c == IF want = 1 /\ primeCallee /\ PrimeOk(n, fol) THEN 1
+                    ELSE IF want = 2 /\ n >= 1 /\ ArrowArgs(e) /\ ArrowOk(fol) THEN 2
+                    ELSE IF want = 3 /\ n >= 1 /\ ArrowArgs(e) /\ ArrowOk(fol) /\ PrimeOk(n - 1, fol) THEN 3
                     ELSE 0
-               callee == RE(e.f, p \o ".f", IF c \in {0, 2} THEN "(" ELSE "'", c = 0 /\ NeedBase(e.f), c # 0, inb, pf)
-               first == RE(e.args[1], p \o ".g1", "->", NeedArrowLhs(e.args[1]) \/ NeedArg(e.args[1]), FALSE, inb, pf)
+               callee == RE(e.f, p \o ".f", IF c \in {0, 2} THEN "(" ELSE "'", NeedBase(e.f), FALSE, inb, top /\ c \in {0, 1}, pf)
+               first == RE(e.args[1], p \o ".g1", "->", NeedArrowLhs(e.args[1]) \/ NeedArg(e.args[1]), FALSE, inb, top, pf)
                paren == c \in {0, 2}
                start == IF c \in {2, 3} THEN 2 ELSE 1
                rest == RArgs(e.args, start, p, IF paren THEN ")" ELSE fol, paren \/ inb, pf)
@@ -220,30 +243,30 @@ RK(e, p, fol, inb, pf) ==
                      ELSE E0
            IN One("c@" \o p, c) @@ br @@ callee @@ (IF c \in {2, 3} THEN first ELSE E0) @@ rest
       [] e.k = "tuple" ->
-           IF Len(e.es) = 1 THEN RE(e.es[1], p \o ".g1", ",", NeedArg(e.es[1]), FALSE, TRUE, pf)
+           IF Len(e.es) = 1 THEN RE(e.es[1], p \o ".g1", ",", NeedArg(e.es[1]), FALSE, TRUE, TRUE, pf)
            ELSE (IF Len(e.es) >= 2 THEN One("b@" \o p, NormL(Get(pf, "b@" \o p), {1, 2, 4}, FALSE)) ELSE E0)
                 @@ RArgs(e.es, 1, p, ")", TRUE, pf)
       [] e.k = "list" ->
            (IF Len(e.es) >= 1 THEN One("b@" \o p, NormL(Get(pf, "b@" \o p), {1, 2, 4}, FALSE)) ELSE E0) @@ RArgs(e.es, 1, p, "]", TRUE, pf)
       [] e.k = "blob" ->
            (IF Len(e.fields) >= 1 THEN One("b@" \o p, NormL(Get(pf, "b@" \o p), {1, 2, 4}, TRUE)) ELSE E0) @@ RFields(e.fields, 1, p, pf)
-      [] e.k = "fld" -> RE(e.e, p \o ".e", ".", NeedBase(e.e), FALSE, inb, pf)
-      [] e.k = "idx" -> RE(e.e, p \o ".e", "[", NeedBase(e.e), FALSE, inb, pf)
-      [] e.k = "variant" -> IF e.has THEN RE(e.e, p \o ".e", fol, NeedArg(e.e), FALSE, inb, pf) ELSE E0
+      [] e.k = "fld" -> RE(e.e, p \o ".e", ".", NeedBase(e.e), FALSE, inb, top, pf)
+      [] e.k = "idx" -> RE(e.e, p \o ".e", "[", NeedBase(e.e), FALSE, inb, top, pf)
+      [] e.k = "variant" -> IF e.has THEN RE(e.e, p \o ".e", fol, NeedArg(e.e), FALSE, inb, TRUE, pf) ELSE E0
 
 IsTrue(c) == c.k = "bool" /\ c.v = TRUE
 
 RS(st, p, pf) ==
     One("s@" \o p, Get(pf, "s@" \o p) % 16) @@
-    CASE st.k = "def" -> RE(st.e, p \o ".e", "nl", FALSE, FALSE, FALSE, pf)
-      [] st.k = "asg" -> RE(st.e, p \o ".e", "nl", FALSE, FALSE, FALSE, pf)      \* the target is an lvalue path, not an expression: no sites
+    CASE st.k = "def" -> RE(st.e, p \o ".e", "nl", FALSE, FALSE, FALSE, TRUE, pf)
+      [] st.k = "asg" -> RE(st.e, p \o ".e", "nl", FALSE, FALSE, FALSE, TRUE, pf)      \* the target is an lvalue path, not an expression: no sites
       [] st.k = "loop" ->
            LET l == IF IsTrue(st.c) THEN Min2(Get(pf, "l@" \o p), 1) ELSE 0
-           IN One("l@" \o p, l) @@ (IF l = 1 THEN E0 ELSE RE(st.c, p \o ".c", "do", FALSE, FALSE, FALSE, pf))
+           IN One("l@" \o p, l) @@ (IF l = 1 THEN E0 ELSE RE(st.c, p \o ".c", "do", FALSE, FALSE, FALSE, TRUE, pf))
               @@ RBody(st.body, 1, p \o ".s", pf)
-      [] st.k = "ret" -> IF st.has THEN RE(st.e, p \o ".e", "nl", FALSE, FALSE, FALSE, pf) ELSE E0
+      [] st.k = "ret" -> IF st.has THEN RE(st.e, p \o ".e", "nl", FALSE, FALSE, FALSE, TRUE, pf) ELSE E0
       [] st.k = "block" -> RBody(st.body, 1, p \o ".s", pf)
-      [] st.k = "expr" -> RE(st.e, p \o ".e", "nl", FALSE, FALSE, FALSE, pf)
+      [] st.k = "expr" -> RE(st.e, p \o ".e", "nl", FALSE, FALSE, FALSE, TRUE, pf)
       [] st.k \in {"break", "continue", "unreach"} -> E0
 
 NormIndent(v) == IF v > 9 THEN DefaultIndent ELSE v
@@ -268,10 +291,10 @@ LineStable(ch) == \A key \in DOMAIN ch :
     \/ key = "indent"
     \/ SubSeq(key, 1, 2) \in {"c@", "t@", "l@", "p@"}
     \/ (SubSeq(key, 1, 2) = "s@" /\ ch[key] \in {0, 4})
-    \/ (SubSeq(key, 1, 2) \in {"b@", "g@", "o@", "d@"} /\ ch[key] = 0)
+    \/ (SubSeq(key, 1, 2) \in {"b@", "g@", "o@", "d@", "f@", "h@"} /\ ch[key] = 0)
 
 (* ---------------------------------------------------------------- the sites of a program, in pre-order *)
-\* a site: [key, kind ("c","t","l","p","s","b","g","o","d"), n (number of options), ctx (position class, for signatures)]
+\* a site: [key, kind ("c","t","l","p","s","b","g","o","d","f","h"), n (number of options), ctx (position class, for signatures)]
 \* o@ sites are listed where newlines are skipped in the PLAIN form (inb); g@ sites at every expression that may be parenthesised
 Site(key, kind, n, ctx) == [key |-> key, kind |-> kind, n |-> n, ctx |-> ctx]
 
@@ -302,6 +325,7 @@ SE(e, p, ctx, np, inb) ==
       [] e.k = "fn" ->
            LET n == Len(e.body) IN
            (IF e.ret.k # "tvoid" /\ n > 0 /\ e.body[n].k = "expr" THEN <<Site("t@" \o p, "t", 2, ctx \o ":" \o e.body[n].e.k)>> ELSE <<>>)
+           \o (IF inb THEN <<Site("f@" \o p, "f", NLayout, ctx)>> ELSE <<>>) \o <<Site("h@" \o p, "h", NLayout, ctx)>>
            \o SBody(e.body, 1, p \o ".s")
       [] e.k = "call" ->
            (IF CallOpts(e) > 1 THEN <<Site("c@" \o p, "c", CallOpts(e), ctx \o ":" \o e.f.k \o Str(Len(e.args)))>> ELSE <<>>)
@@ -350,7 +374,7 @@ AllPrefs(S) ==
 RECURSIVE Product(_, _)
 Product(S, i) == IF i > Len(S) THEN 1 ELSE S[i].n * Product(S, i + 1)
 
-Cap(s, v) == IF s.kind \in {"s", "b", "g", "o", "d"} THEN v ELSE Min2(v, s.n - 1)
+Cap(s, v) == IF s.kind \in {"s", "b", "g", "o", "d", "f", "h"} THEN v ELSE Min2(v, s.n - 1)
 \* uniform and strided patterns; kinds is the set of site kinds the pattern touches
 Uniform(S, IX, kinds, v) == Pref(IX, LAMBDA i : IF S[i].kind \in kinds THEN Cap(S[i], v) ELSE 0)
 Strided(S, IX, kinds, v, m, r) == Pref(IX, LAMBDA i : IF S[i].kind \in kinds /\ i % m = r THEN Cap(S[i], v) ELSE 0)
@@ -391,7 +415,7 @@ TokK(e, p, ch) ==
            LET n == Len(e.args)
                c == Get(ch, "c@" \o p)
                brk == Get(ch, "b@" \o p)
-               callee == TokE(e.f, p \o ".f", c = 0 /\ NeedBase(e.f), c # 0, ch)
+               callee == TokE(e.f, p \o ".f", NeedBase(e.f), FALSE, ch)
                first == TokE(e.args[1], p \o ".g1", NeedArrowLhs(e.args[1]) \/ NeedArg(e.args[1]), FALSE, ch)
            IN (CASE c = 0 -> callee \o Bracketed("(", TItems(e.args, 1, p, brk, ch), ")", IF n >= 1 THEN brk ELSE 0)
                  [] c = 1 -> callee \o <<"'">> \o TItems(e.args, 1, p, 0, ch)
